@@ -10,4 +10,5 @@ let () =
   | [| _; "codec" |] -> Codec_driver.run ()
   | [| _; "vss" |] -> Vss_driver.run ()
   | [| _; "ledger" |] -> Ledger_driver.run ()
+  | [| _; "pis" |] -> Pis_driver.run ()
   | _ -> prerr_endline "usage: ompl_model <heap|...>"; exit 2
